@@ -16,8 +16,23 @@ def sh(cmd, timeout=1800):
     return subprocess.run(cmd, shell=True, capture_output=True, text=True, timeout=timeout)
 
 
+def ensure_worktree():
+    """the scratch worktree lives outside /repo and /verif and is removed by hand when done
+    (`git -C /repo worktree remove --force <dir>`); it is (re)created here when missing"""
+    import glob
+    if not os.path.isdir(os.path.join(WT, "src")):
+        os.makedirs(os.path.dirname(WT), exist_ok=True)
+        subprocess.run(f"git -C /repo worktree prune; git -C /repo worktree add --detach {WT} HEAD -q", shell=True, check=True)
+    so = sorted(glob.glob("/verif/.cache/cpp/*/sa_fandango_cpp_parser.so"), key=os.path.getmtime)
+    dst = os.path.join(WT, "src/fandango/language/parser/sa_fandango_cpp_parser.so")
+    if so and not os.path.exists(dst):
+        import shutil
+        shutil.copy(so[-1], dst)
+
+
 def main():
     sid, awt, prop = sys.argv[1:4]
+    ensure_worktree()
     others = sys.argv[4:]
     dst = f"/verif/seeded/{sid}"
     os.makedirs(dst, exist_ok=True)
